@@ -42,12 +42,17 @@ def run : Runner
       | _ => "violated:shape"
     let nb := String.join (Address.nets.map fun n => tokB (ver == n.hdPriv || ver == n.hdPub))
     let prop := match impl.splitOn " " with
-      | [s', _, _, _, _, parsed] =>
+      | [s', _, _, _, _, parsed, zeroed] =>
         (match parsed.splitOn "," with
-        | "ok" :: re :: _ => if re == s' then "ok" else "violated:reserialise"
+        | "ok" :: re :: _ =>
+          if re != s' then "violated:reserialise"
+          else if zeroed != "Z:0:1" then "violated:Zero left key material behind (parent fingerprint / caller buffers not wiped)"
+          else "ok"
         | _ => "violated:own string rejected")
       | _ => "violated:shape"
-    pure { model := s!"{Bytes.tok s} {nb} {tokB priv} {depth} {Bytes.toNatBE pfp} {xkeyObs (NewKeyFromString X s)}", prop }
+    -- after `Zero`: the fingerprint reads 0 and the three buffers the raw constructor was given are wiped (it stores the
+    -- caller's slices: `Props/C15New.lean`, `C15_new_aliases_caller`)
+    pure { model := s!"{Bytes.tok s} {nb} {tokB priv} {depth} {Bytes.toNatBE pfp} {xkeyObs (NewKeyFromString X s)} Z:0:1", prop }
   | "seedgen", [_, l], _ => do
     let l ← nat? l
     pure { model := if l < 16 ∨ l > 64 then "err:seedlen" else s!"ok:{l}:1", prop := "spec" }
